@@ -512,6 +512,7 @@ def configs(tier):
         {"sends": 1, "extras": 1, "hreset": 1, **lean},       # failure, silent link (also after the host's own RST), RSTACK recovery, send after recovery
         {"sends": 2, "extras": 1, **lean},
         {"sends": 1, "extras": 1, "warmup": 7, **lean},       # first frame number 7: wraps
+        {"sends": 1, "extras": 0, "warmup": 8, "slow": 0, "data": 0},   # frame number 0 on the second lap, with the stale acknowledgements (ackNum 7, 4 ...)
         {"sends": 1, "warmup": 12, "extras": 0, "data": 0, "rstack": 0, "stale": 0},  # adaptive timeout at its floor
     ]
     if tier == "quick":
